@@ -7,7 +7,7 @@ Driver for the enum area: decodes one case, prints the region and the model / sp
   (case <id> c12    (type …) (flags json text sql gorm) (blocks B…) (target v) (strs "s"…)
                     (jsons (str "s")|null|other …) (sqls (bytes "s")|other …) (ints v…) (encs v…))
   (case <id> c12t   (type …) (blocks B…) (ints v…))
-  (case <id> c14    (type …) (blocks B…) (hi N))
+  (case <id> c14    (type …) (blocks B…) (hi N) (neg v…))
   (case <id> c14raw (type …) (blocks B…))
   B = (b S…)   S = (s (n "A" "B"…) (t "T")|(c)|(e -|"T") (v 1 2…))
 -/
@@ -227,21 +227,22 @@ def c12tCase (id : String) (payload : List Sexp) : List String :=
 def showBV {w} (signed : Bool) (x : BitVec w) : String := toString (Bit.decOf signed x)
 
 def c14Lines {w : Nat} (signed : Bool) (t : Bit.Table w) (strf : BitVec w → Str)
-    (has : BitVec w → BitVec w → Bool) (add rem : BitVec w → BitVec w → BitVec w) (hi : Nat) : List (String × String) :=
+    (has : BitVec w → BitVec w → Bool) (add rem : BitVec w → BitVec w → BitVec w) (hi : Nat) (negs : List Int) : List (String × String) :=
   let xs := (List.range hi).map (fun n => BitVec.ofNat w n)
   [("strs", "|".intercalate (xs.map (fun x => showStr (strf x))))]
+  ++ (if negs.isEmpty then [] else [("nstrs", "|".intercalate (negs.map (fun v => showStr (strf (BitVec.ofInt w v)))))])
   ++ t.flatMap (fun e =>
       let f := e.1
       [(s!"has:{showBV signed f}", String.ofList (xs.map (fun x => if has x f then '1' else '0'))),
        (s!"add:{showBV signed f}", ",".intercalate (xs.map (fun x => showBV signed (add x f)))),
        (s!"rem:{showBV signed f}", ",".intercalate (xs.map (fun x => showBV signed (rem x f))))])
 
-def c14At (w : Nat) (i : Input) (cs : List Const) (hi : Nat) : List (String × String) × List (String × String) :=
+def c14At (w : Nat) (i : Input) (cs : List Const) (hi : Nat) (negs : List Int) : List (String × String) × List (String × String) :=
   let sg := i.kind.signed
   let tm : Bit.Table w := Bit.table i.T cs
   let ts : Bit.Table w := Bit.table i.T (specSorted i.decl)
-  (c14Lines sg tm (Bit.string sg tm) Bit.has Bit.add Bit.remove hi,
-   c14Lines sg ts (Bit.specString sg ts) Bit.specHas Bit.specAdd Bit.specRemove hi)
+  (c14Lines sg tm (Bit.string sg tm) Bit.has Bit.add Bit.remove hi negs,
+   c14Lines sg ts (Bit.specString sg ts) Bit.specHas Bit.specAdd Bit.specRemove hi negs)
 
 def c14Case (id : String) (payload : List Sexp) : List String :=
   let p := Sexp.list (.atom "p" :: payload)
@@ -249,6 +250,7 @@ def c14Case (id : String) (payload : List Sexp) : List String :=
   | none => err id "bad-enum-case"
   | some i =>
     let hi := ((intsOf p "hi").headD 0).toNat
+    let negs := intsOf p "neg"
     let hd := [("exit", "0"), ("compile", "ok")]
     match gen i.T i.blocks with
     | .skipped => both id [("exit", "0"), ("file", "none")] hd (regionBit i)
@@ -258,10 +260,10 @@ def c14Case (id : String) (payload : List Sexp) : List String :=
       if !compiles false i.T cs then both id [("exit", "0"), ("compile", "error")] hd (regionBit i)
       else
         let (m, s) := match i.kind.bits with
-          | 8 => c14At 8 i cs hi
-          | 16 => c14At 16 i cs hi
-          | 32 => c14At 32 i cs hi
-          | _ => c14At 64 i cs hi
+          | 8 => c14At 8 i cs hi negs
+          | 16 => c14At 16 i cs hi negs
+          | 32 => c14At 32 i cs hi negs
+          | _ => c14At 64 i cs hi negs
         both id (hd ++ m) (hd ++ s) (regionBit i)
 
 /-- the emitted -bit file as it is: does it compile? -/
